@@ -201,17 +201,62 @@ def check_accessor(ck, fn):
             bb = match.binop(b[1], ("-",))
             okk = bool(bb and match.this_field(bb[1]) == "end_" and match.this_field(bb[2]) == "begin_")
         if not okk:
-            ck.violation("ACCESSOR-CONVENTION", fn.qname, "size", "size() is not (end_ - begin_) wrapped: %s" % dtable.describe(e), fn.loc)
-        else:
-            ck.ok("ACCESSOR-CONVENTION", where, "(end_ - begin_) & mask_")
+            cex = accessor_grid(fn, e, lambda b_, e_, m_, i_: (e_ - b_) & m_, index=False)
+            if cex:
+                ck.violation("ACCESSOR-CONVENTION", fn.qname, "size", "size() is not (end_ - begin_) wrapped: %s gives %s for begin_=%d end_=%d mask_=%d"
+                             % (dtable.describe(e), cex[3], cex[0], cex[1], cex[2]), fn.loc)
+                return
+        ck.ok("ACCESSOR-CONVENTION", where, "(end_ - begin_) & mask_")
         return
     slot = slot_of_lvalue(e, st, fn)
     want = {"front": ("b", 0, None), "back": ("e", -1, None), "operator[]": ("b", 0, fn.params[0]["name"] if fn.params else None)}[fn.name]
     if slot is None or slot.key() != want or not slot.masked:
-        ck.violation("ACCESSOR-CONVENTION", fn.qname, "slot", "%s returns %s%s, the live range convention requires data_[%r & mask_]"
-                     % (fn.name, dtable.describe(e), "" if slot is None or slot.masked else " (unwrapped)", Cursor(*want)), fn.loc)
+        # not the usual spelling: decide on all cursor positions of small buffers
+        spec = {"front": lambda b_, e_, m_, i_: b_ & m_, "back": lambda b_, e_, m_, i_: (e_ - 1) & m_,
+                "operator[]": lambda b_, e_, m_, i_: (b_ + i_) & m_}[fn.name]
+        cex = accessor_grid(fn, e, spec, index=True)
+        if cex:
+            ck.violation("ACCESSOR-CONVENTION", fn.qname, "slot", "%s returns %s: slot %s for begin_=%d end_=%d mask_=%d%s, the live range convention requires data_[%r & mask_]"
+                         % (fn.name, dtable.describe(e), cex[3], cex[0], cex[1], cex[2], (" i=%d" % cex[4]) if fn.params else "", Cursor(*want)), fn.loc)
+            return
+        ck.ok("ACCESSOR-CONVENTION", where, "returns the slot of the convention on every cursor position of buffers with mask 0..15")
         return
     ck.ok("ACCESSOR-CONVENTION", where, "returns data_[%r]" % slot)
+
+
+def accessor_grid(fn, e, spec, index):
+    """evaluates the returned expression (its data_ index if `index`) for every (begin_, end_, mask_, i) of small ring
+    buffers: -> None if it always equals spec, else a counterexample (b, e, m, got, i); Undecidable if not evaluable"""
+    from engine import skel
+    ix = e
+    if index:
+        e0 = strip_casts(e)
+        ip = match.index_parts(e0)
+        if not ip or match.this_field(ip[0]) != "data_":
+            d_ = match.deref_of(e0)
+            pl = match.binop(d_, ("+",)) if d_ is not None else None
+            if pl and match.this_field(pl[1]) == "data_":
+                ix = pl[2]
+            else:
+                raise dtable.Undecidable("%s: returned element not understood: %s" % (fn.loc, dtable.describe(e)))
+        else:
+            ix = ip[1]
+    M64_ = 2 ** 64
+    for m_ in (0, 1, 3, 7, 15):
+        for b_ in range(m_ + 1):
+            for e_ in range(m_ + 1):
+                for i_ in (range(m_ + 1) if fn.params else [0]):
+                    env = {("field", "begin_"): b_, ("field", "end_"): e_, ("field", "mask_"): m_, ("field", "capacity_"): m_ + 1}
+                    if fn.params:
+                        env[fn.params[0]["did"]] = i_
+                    sk = skel.Skel(fn, env, None, None)
+                    got = sk.ev(ix)
+                    if not isinstance(got, int):
+                        raise dtable.Undecidable("%s: %s cannot be evaluated" % (fn.loc, dtable.describe(ix)))
+                    got %= M64_
+                    if got != spec(b_, e_, m_, i_) % M64_:
+                        return (b_, e_, m_, got, i_)
+    return None
 
 
 def this_calls(fn, names):
@@ -621,6 +666,18 @@ def check_sv_owner(ck, fn):
                             null_edges.append(fe)
             if ds and all(g.pos(d) for d in ds) and g.path_avoiding(pw, [g.pos(d) for d in ds], blocked_edges=null_edges) is None:
                 ok_b = True
+        # (d) saved to a local that is handed to another object's array_ on every path after the write (exchange)
+        ok_d = False
+        if saved is not None:
+            hand = []
+            for y in ir.walk(fn.body):
+                b_ = match.binop(y, ("=",))
+                f_ = match.field_of(b_[1]) if b_ else None
+                if b_ and f_ and f_[1] == "array_" and strip_casts(f_[0])["k"] != "This" and ref_of(b_[2]) == saved["did"]:
+                    hand.append(y)
+            ph = [g.pos_deep(h) for h in hand if g.pos_deep(h)]
+            if ph and g.path_avoiding(pw, ph) is None:
+                ok_d = True
         # (c) array_ known null on this path: write is in the false branch of if (array_)
         ok_c = False
         par = fn.parent(wnode)
@@ -633,7 +690,7 @@ def check_sv_owner(ck, fn):
                         any(y is node for y in ir.walk(kids(par)[2])):
                     ok_c = True
             node, par = par, fn.parent(par)
-        if not (ok_a or ok_b or ok_c):
+        if not (ok_a or ok_b or ok_c or ok_d):
             ck.violation("SV-OWNER", fn.qname, "overwrite", "array_ is overwritten while it may still own a block (old block neither destroyed nor saved)", fn.nloc(wnode))
             return False
     ck.ok("SV-OWNER", where, "%d writes to array_, old block destroyed/saved/known null at each" % len(writes))
